@@ -1,4 +1,4 @@
 (* extraction of the FM 94 reference codec: ExtrOcamlBasic only, no directives of our own *)
 From Coq Require Import ExtrOcamlBasic.
-From V Require Import Walk Fm94 Fm94Exp.
-Extraction "fm94_model.ml" enc_plain dec_plain enc_comp dec_comp layout bits_to_bytes bytes_to_bits enc_numcol choice0 mk_field resolve op0 nbits_inc allones sexpand well_nested accepts.
+From V Require Import Walk Fm94 Fm94Exp Fm94Slice.
+Extraction "fm94_model.ml" enc_plain dec_plain enc_comp dec_comp layout bits_to_bytes bytes_to_bits enc_numcol choice0 mk_field resolve op0 nbits_inc allones sexpand well_nested accepts dec_comp_range dec_plain_range merge.
